@@ -66,6 +66,14 @@ let tables () =
     (bad_nrows ctx_writers);
   Stdlib.List.iter (fun (f, l) -> Printf.printf "bad_rrow %s %s\n" (os f) (Stdlib.String.concat "," (Stdlib.List.map os l)))
     (bad_rrows structs reinit_rows);
+  Stdlib.List.iter (fun ((p, l), q) -> Printf.printf "bad_single %s %s %s\n" (os p) (os l) (os q))
+    (bad_singles child_names reader_name_tests delete_table not_deletable goto_table);
+  Stdlib.List.iter (fun (p, n) -> Printf.printf "unjustified_name %s %s\n" (os p) (os n))
+    (unjustified_names child_names reader_name_tests delete_table);
+  Stdlib.List.iter (fun ((p, l), q) -> Printf.printf "user_single %s %s %s\n" (os p) (os l) (os q))
+    (user_named_singles child_names reader_name_tests delete_table goto_table);
+  Stdlib.List.iter (fun ((p, l), n) -> Printf.printf "shadowed_single %s %s %s\n" (os p) (os l) (os n))
+    (shadowed_singles child_names reader_name_tests delete_table not_deletable goto_table);
   Stdlib.List.iter (fun ((p, l), n) -> Printf.printf "shadowed %s %s %s\n" (os p) (os l) (os n))
     (shadowed delete_table not_deletable goto_table);
   let withkids = positions_with_children goto_table in
